@@ -1,6 +1,6 @@
 (** C03 - Whatever is revoked, removed or replaced is withdrawn and stays on the CRL.
     Only statements; proofs in ca/CaObjProofs.v and ca/CaOracleProofs.v. *)
-From KV Require Import base.Tac ca.Ca ca.CaProofs ca.CaObjProofs ca.CaCheck ca.CaOracleProofs.
+From KV Require Import base.Tac ca.Ca ca.CaProofs ca.CaObjProofs ca.CaCheck ca.CaOracleProofs ca.KeyCheck.
 Open Scope N_scope.
 
 (** Every insert/remove in a key's object set records a revocation for the superseded object. *)
@@ -61,6 +61,14 @@ Proof. exact agrees_meets_c03_checked. Qed.
 Theorem C03_model_run_meets_oracle_without_freshness_refuted : ~ model_run_meets_revoked_ok_full.
 Proof. exact model_run_meets_revoked_ok_full_refuted. Qed.
 
+(** When a class goes (parent removed, CA deleted, entitlement lost) every key of the class that holds a
+    certificate - and only those - gets a revocation request; the second scenario `keystates` compares the
+    implementation's KeyState::revoke with [ks_revoke_keys] in every key state. *)
+Theorem C03_revoke_covers_every_certified_key : forall ks ki,
+  ks_certified ks ki = true <-> In ki (ks_revoke_keys ks).
+Proof. exact revoke_covers_every_certified_key. Qed.
+
+Print Assumptions C03_revoke_covers_every_certified_key.
 Print Assumptions C03_model_run_meets_oracle.
 Print Assumptions C03_agrees_meets_oracle.
 Print Assumptions C03_model_run_meets_oracle_without_freshness_refuted.
